@@ -178,8 +178,20 @@ func (in *Interp) globalObj(g *ssa.Global) int {
 	return id
 }
 
+// Packages whose initialisers only precompute hash tables (zero hashes): never run.
+var defaultNoInit = []string{
+	"github.com/protolambda/ztyp/tree",
+	"github.com/protolambda/zrnt/eth2/util/merkle",
+	"github.com/ferranbt/fastssz",
+}
+
 func (in *Interp) shouldInit(p *ssa.Package) bool {
 	path := p.Pkg.Path()
+	for _, n := range defaultNoInit {
+		if n == path {
+			return false
+		}
+	}
 	for _, n := range in.Cfg.NoInit {
 		if n == path {
 			return false
